@@ -116,6 +116,19 @@ def process(prog: dict, opts: dict) -> dict:
                     if want and rk["exp"].get(s["name"]) != want[0]:
                         static.append({"rank": r, "name": s["name"], "what": "sent array"})
     out["static"] = static
+    # the parts must be compilable by pytato's own generate_code_for_partition
+    # (code is generated, not run: there is no OpenCL platform here)
+    codegen = []
+    if opts.get("codegen", True):
+        from pytato.distributed.execute import generate_code_for_partition
+        for r in range(prog["nranks"]):
+            try:
+                prgs = generate_code_for_partition(pl.num[r])
+                if set(prgs) != set(pl.num[r].parts):
+                    codegen.append({"rank": r, "exc": "", "msg": "part ids differ"})
+            except Exception as ex:      # noqa: BLE001
+                codegen.append({"rank": r, "exc": type(ex).__name__, "msg": str(ex)[:200]})
+    out["codegen"] = codegen
     if not opts.get("execute", True):
         out["wall"] = time.time() - t0
         return out
